@@ -84,6 +84,8 @@ def analyse(line, out):
     segs = out.split(';')
     if len(segs) != len(ops):
         return {'ALL': 'output has %d segments for %d ops' % (len(segs), len(ops))}
+    ident = {}            # writer -> set of (id, name) it ever had
+    cur = {}              # writer -> current (id, name)
     accepted = {}         # writer -> list of (seq) accepted
     delivered = {}        # writer -> list of seq
     outputs = [[]]        # per output: list of payloads
@@ -95,6 +97,15 @@ def analyse(line, out):
             if seg != 'disabled':
                 fails['ALL'] = 'harness reported %s for %s' % (seg, op)
             continue
+        if t[0] == 'cw' and seg == 'cw':
+            cur[int(t[1])] = (int(t[3]), bytes.fromhex(t[4]) if t[4] != '-' else b'')
+            ident.setdefault(int(t[1]), set()).add(cur[int(t[1])])
+        elif t[0] == 'sid' and seg == 'sid':
+            cur[int(t[1])] = (int(t[2]), cur.get(int(t[1]), (0, b''))[1])
+            ident.setdefault(int(t[1]), set()).add(cur[int(t[1])])
+        elif t[0] == 'sname' and seg == 'sname':
+            cur[int(t[1])] = (cur.get(int(t[1]), (0, b''))[0], bytes.fromhex(t[2]) if t[2] != '-' else b'')
+            ident.setdefault(int(t[1]), set()).add(cur[int(t[1])])
         if t[0] == 'log':
             if parse_kv(seg).get('ok') == '1':
                 args = bytes.fromhex(t[4])
@@ -125,6 +136,7 @@ def analyse(line, out):
                             fails['C11'] = 'writer description before the previous batch ended'
                         wid = int.from_bytes(p[8:16], 'little')
                         nlen = int.from_bytes(p[16:20], 'little')
+                        wname = p[20:20 + nlen]
                         run_left = int.from_bytes(p[20 + nlen:28 + nlen], 'little')
                         run_writer = None
                     elif tg is not None and tg < (1 << 63):
@@ -134,6 +146,9 @@ def analyse(line, out):
                         w, seq = struct.unpack('<II', p[16:24])
                         if run_writer is None:
                             run_writer = w
+                            if w in ident and (wid, wname) not in ident[w]:
+                                fails['C11'] = 'the writer description in front of the events of writer %d names (id=%d, name=%r), which that writer never was (it was %s)' % (
+                                    w, wid, wname, sorted(ident[w])[:3])
                         elif run_writer != w:
                             fails['C11'] = 'a batch mixes events of two writers'
                         delivered.setdefault(w, []).append(seq)
@@ -337,6 +352,65 @@ def inject_stream(ctx, prop):
     return fails
 
 
+def gen_reuse_script(rng):
+    """writers that come and go: a writer logs and is consumed, is destroyed, a consume removes its channel, a NEW writer with
+    the same queue capacity (so that the allocator may hand out the same block) logs from an already registered statement"""
+    cs = (rng.randrange(1000), 10 ** 9, rng.randrange(10 ** 18), 0, b'UT'.hex())
+    ops = ['src 128 %s %s %s 1 %s %s' % (b'c'.hex(), b'fn'.hex(), b'f.cpp'.hex(), b'm {}'.hex(), b'I'.hex())]
+    w, seqs = 0, {}
+    cap = rng.choice([64, 128, 1024])
+    for round_ in range(rng.choice([2, 3, 5])):
+        w += 1
+        named = rng.random() < 0.6
+        ops.append('cw %d %d %d %s' % (w, cap, (100 + w) if named else 0, (b'wk%d' % w).hex() if named else '-'))
+        for _ in range(rng.choice([1, 2])):
+            ops.append('log %d 1 %d %s' % (w, rng.randrange(1000), struct.pack('<II', w, seqs.get(w, 0)).hex()))
+            seqs[w] = seqs.get(w, 0) + 1
+        if rng.random() < 0.8:
+            ops.append('consume')
+        if rng.random() < 0.3:
+            ops.append(rng.choice(['sid %d %d' % (w, 200 + w), 'sname %d %s' % (w, b'ren'.hex())]))
+        ops.append('dw %d' % w)
+        ops.append('consume')
+    ops.append('consume')
+    return 'session %d %d %d %d %s | ' % cs + ' | '.join(ops)
+
+
+def reuse_stream(ctx, prop):
+    """the same harness with ASan's quarantine switched off, so that freed blocks are handed out again at once: identities
+    kept beyond the life of a channel (addresses used as keys) show"""
+    exe = build_harness('session_harness', link_repo=False)
+    rng = random.Random(ctx.seed * 1000003 + 77)
+    n = cases_count(ctx, 300, 6000)
+    lines = [gen_reuse_script(rng) for _ in range(n)]
+    env = {'ASAN_OPTIONS': 'detect_leaks=0:abort_on_error=0:quarantine_size_mb=0:thread_local_quarantine_size_kb=0'}
+    rc, impl, err = run_lines(exe, lines, env=env, stall=90, timeout=3600)
+    rc2, model, err2 = run_lines(driver_path(), lines)
+    fails, mism = 0, 0
+    for i, l in enumerate(lines):
+        if i >= len(impl):
+            break
+        f = analyse(l, impl[i])
+        what = f.get(prop) or f.get('ALL')
+        if what:
+            fails += 1
+            if fails <= 3:
+                ctx.violation('%s-reuse-%s' % (prop.lower(), hashlib.sha256(l.encode()).hexdigest()[:10]), '%s: %s' % (prop, what),
+                              {'kind': 'script', 'input_line': l, 'impl': impl[i], 'note': 'run with ASAN_OPTIONS quarantine_size_mb=0 (freed blocks are reused at once)'})
+        elif i < len(model) and impl[i] != model[i]:
+            mism += 1
+            if mism <= 2:
+                ctx.violation('corr-session_reuse-%d' % i, 'correspondence session_reuse broke: model and implementation disagree on case %d' % i,
+                              {'kind': 'correspondence', 'stream': 'session_reuse', 'input_line': l, 'impl': impl[i], 'model': model[i],
+                               'broken': 'correspondence stream session_reuse (model of Props.%s no longer matches the code)' % ctx.pid}, found_input=False)
+    if rc != 0 and len(impl) < len(lines):
+        fails += 1
+        ctx.violation('%s-reuse-crash' % prop.lower(), '%s: the real Session crashed on a script of writers that come and go' % prop,
+                      {'kind': 'script', 'input_line': lines[len(impl)], 'stderr_tail': err[-2000:]})
+    ctx.streams['session_reuse'] = {'cases': n, 'property_failures': fails, 'mismatches': mism}
+    return fails
+
+
 def session_check(ctx, module, theorems, prop, rotations=True, extra=None):
     ok = proof_step(ctx, module, theorems, extra_targets=extra)
     exe = build_harness('session_harness', link_repo=False)
@@ -361,6 +435,8 @@ def session_check(ctx, module, theorems, prop, rotations=True, extra=None):
         prop_fail.add('inject')
     if getattr(ctx, 'extra_finder', None) and ctx.extra_finder(ctx):
         prop_fail.add('race')
+    if reuse_stream(ctx, prop):
+        prop_fail.add('reuse')
     finish_proof(ctx, ok, bool(prop_fail))
     ctx.coverage.update({'evaluations': len(lines), 'distinct_nontrivial': len(nontrivial),
                          'traces_validated_against_impl': len(lines) - len(mism), 'rule': SESSION_RULE +
